@@ -17,7 +17,8 @@
    A message is (type, cls): the type byte and a small class of its (well-formed) body, see [cls] comments.
    The connection layer (types >= 80 once authentication is complete) is NOT modelled: such messages only
    move the counters and are reported as delegated.  asyncio is modelled as run-to-suspension: created
-   tasks sit in [pending] until an EvSettle event runs them (FIFO).  Application callbacks are fixed to
+   tasks sit in [pending] until an EvSettle event runs them (FIFO); handlers that are coroutines (_process_kexinit,
+   _finish_userauth) run to completion within the packet's own step, as asyncssh buffers further input for them.  Application callbacks are fixed to
    what the harness applications answer: begin_auth = True, validate_password = table lookup,
    password_auth_requested = a password, password_change_requested = NotImplemented,
    client preferred_auth = [password], no rekey thresholds, no timers, no compression, no GSS, no EXT_INFO sent.
@@ -35,7 +36,6 @@ From AV Require Import Base.Prelude.
 Inductive task :=
 | TClientAuth (m : Z)                         (* ClientAuth._start of method m: 0 none, 1 password *)
 | TChangePw                                   (* _ClientPasswordAuth._change_password *)
-| TFinishUA (begin : bool) (method pw : Z)    (* SSHConnection._finish_userauth *)
 | TServerPw (u pw : Z).                       (* _ServerPasswordAuth._start for user u *)
 
 Record conn := mkconn {
@@ -230,16 +230,25 @@ Definition pw_valid (u pw : Z) : bool := ((u =? 1) && (pw =? 1)) || ((u =? 2) &&
 
 (* USERAUTH_REQUEST.  cls = 100*user + 10*method + password;  user 1..3, method 0 none / 1 password /
    2 unknown, password 0 wrong / 1 / 2;  cls < 0: wrong service name *)
+Definition send_userauth_failure (c : conn) : conn := send_packet (set_auth 0 c) 51 0.
+
+Definition not_server_task (k : task) : bool :=
+  match k with TServerPw _ _ => false | _ => true end.
+
 Definition on_userauth_request (c : conn) (cls : Z) : conn :=
   if cls <? 0 then fatal c
   else if negb (srv c) then fatal c
   else if auth_complete c then (if auth_final c then fatal c else c)
   else
+    (* a new request supersedes the attempt in progress at once (its validator task is cancelled); then
+       _finish_userauth runs to completion before any further input is read (the handler returns the coroutine,
+       /repo 208592d): begin_auth answers True, lookup_server_auth creates the method object, whose own task
+       (the credential check) is what stays pending *)
     let u := cls / 100 in
-    let begin := negb (u =? user c) in
-    set_pending (pending c ++ [TFinishUA begin ((cls / 10) mod 10) (cls mod 10)]) (set_user u c).
+    let c1 := set_user u (set_auth 0 (set_pending (filter not_server_task (pending c)) c)) in
+    if (cls / 10) mod 10 =? 1 then set_pending (pending c1 ++ [TServerPw u (cls mod 10)]) (set_auth 3 c1)
+    else send_userauth_failure c1.
 
-Definition send_userauth_failure (c : conn) : conn := send_packet (set_auth 0 c) 51 0.
 
 Definition send_userauth_success (c : conn) : conn :=
   let c1 := send_packet c 52 0 in
@@ -329,10 +338,6 @@ Definition run_task (c : conn) (k : task) : conn :=
   match k with
   | TClientAuth m => set_req_issued true (send_packet c 50 0)     (* send_userauth_request hands the request to send_packet *)
   | TChangePw => try_next_auth (set_app_events (app_events c + 1) c) true    (* password_change_requested -> NotImplemented *)
-  | TFinishUA begin method pw =>
-      (* begin_auth answers True; an auth object in progress is cancelled; lookup_server_auth *)
-      if method =? 1 then set_pending (pending c ++ [TServerPw (user c) pw]) (set_auth 3 c)
-      else send_userauth_failure c
   | TServerPw u pw =>
       if pw_valid u pw then send_userauth_success c else send_userauth_failure c
   end.
